@@ -91,7 +91,10 @@ def exceptions() -> list[Any]:
     chained.__cause__ = ValueError("inner")
     return [ValueError("boom"), RuntimeError(""), TimeoutError("t/o é"), KeyError("k"), OSError(2, "No such file"),
             E.CustomErr("custom é"), E.CustomValueErr("cv"), E.CustomKeyErr("user-42"), E.CustomKeyErr(7), E.CustomLookupErr("lk"), chained, Exception("multi\nline"), ZeroDivisionError("division by zero"),
-            IndexError("i"), AssertionError("a")]
+            IndexError("i"), AssertionError("a"),
+            # keys that are strings which read as Python literals, or carry quotes themselves
+            KeyError("42"), KeyError("None"), KeyError("[1]"), KeyError("'quoted'"), KeyError("it's"), KeyError(""), KeyError(42), KeyError(None),
+            E.CustomKeyErr("7"), E.CustomKeyErr("True")]
 
 
 def shapes(tier: str) -> list[tuple[str, Any]]:
